@@ -218,11 +218,16 @@ def c01(ctx):
         if quick:
             graphs = [("c01-one", consts(Tokens='{"t1"}', Acts=fam, MaxH="4", MaxO="2", LoginPins='{"P1", "P2"}')),
                       ("c01-two", consts(Acts='{"sess", "obj", "find", "attr", "rightpin"}', MaxH="4", MaxO="1",
-                                         LoginPins='{"P1", "P2"}'))]
+                                         LoginPins='{"P1", "P2"}')),
+                      # key-making calls that fail late (template refused while the object is built) next to bystanders
+                      ("c01-fail", consts(Tokens='{"t1"}', Acts='{"sess", "obj", "makefail", "rightpin"}', MaxH="3", MaxO="2",
+                                          LoginPins='{"P1", "P2"}'))]
             classes = ["aes"]
         else:
             graphs = [("c01-one", consts(Tokens='{"t1"}', Acts=fam, MaxH="4", MaxO="2", LoginPins='{"P1", "P2"}')),
-                      ("c01-two", consts(Acts=fam[:-1] + ', "rightpin"}', MaxH="4", MaxO="2", LoginPins='{"P1", "P2"}'))]
+                      ("c01-two", consts(Acts=fam[:-1] + ', "rightpin"}', MaxH="4", MaxO="2", LoginPins='{"P1", "P2"}')),
+                      ("c01-fail", consts(Tokens='{"t1"}', Acts='{"sess", "obj", "makefail", "rightpin"}', MaxH="4", MaxO="2",
+                                          LoginPins='{"P1", "P2"}'))]
             classes = ["aes", "rsapriv", "rsapub", "secret", "cert"]
         obs = ["rv", "ss", "oo", "id"]
         r = run_graphs(ctx, lib, graphs, obs, classes, INV_OBJ, jobs=14)
